@@ -86,8 +86,20 @@ def r2(ctx):
         ctx.require_guards(bd, l, [("status == SUCCESS", status_ok), ("x.equals(item)", equal)], "compare_items:continue", "continuing with the next sent item")
     oks = [(b, e) for b, si, st, e in ret_sites(bd, sym) if e[0] == "agg" and e[2] == "Ok"]
     ctx.check(len(oks) == 1, "compare_items:one-Ok", "one Ok(()) return", bd.where(line=bd.line))
+    # "sent is exhausted" must be a statement about `sent` alone: an iterator that also draws from the received sequence
+    # (zip / chain with `seq`) ends when EITHER side ends, so its None says nothing about sent objects left unanswered
+    recv_in = lambda x: mentions_name(x, "seq") or mentions_call(x, r"CountSequence::iter$")
+    sent_only = lambda x: mentions_call(x, r"::next$") and mentions_name(x, "sent") and not recv_in(x)
+    # a sent item for which the reply has no object left is a count mismatch: the None arm of received.next() under
+    # "sent item in hand" exists and never continues nor returns Ok
+    missing = [g for g in arm_edges(ctx, bd, g_is(lambda x: mentions_call(x, r"::next$") and recv_in(x) and not mentions_name(x, "sent"), "None")) if any(h.kind == "is" and h.name == "Some" and sent_only(h.a) for h in ctx.guards_at(bd, g.edge[1]))]
+    ctx.check(len(missing) >= 1, "compare_items:missing-object-arm", "a sent item without a received counterpart is tested (received.next() is None while an item of `sent` is in hand)", bd.where(line=bd.line), bad_detail="compare_items never tests received.next() == None while a sent item is in hand: a reply echoing only a prefix of the requested objects is accepted")
+    for g in missing:
+        reg = region_of(bd, g)
+        leaks = [b_ for b_ in reg if header in bd.reachable(b_) and b_ != header] + [b.idx for b, e in oks if b.idx in reg]
+        ctx.check(not leaks, "compare_items:missing-object-rejected", "the missing-object arm only returns an error", bd.where(g.edge[1]), bad_detail="the arm `received.next() is None` (sent item unanswered) continues or returns Ok")
     for b, e in oks:
-        ctx.require_guards(bd, b.idx, [("all sent items consumed", g_is(lambda x: mentions_call(x, r"::next$") and mentions_name(x, "sent"), "None")), ("no surplus received object", g_any(g_bool(lambda x: mentions_call(x, r"Option::is_some$"), False), g_is(lambda x: mentions_call(x, r"::next$") and (mentions_name(x, "seq") or mentions_call(x, r"CountSequence::iter$")), "None")))], "compare_items:Ok", "Ok(()) of compare_items")
+        ctx.require_guards(bd, b.idx, [("all sent items consumed", g_is(sent_only, "None")), ("no surplus received object", g_any(g_bool(lambda x: mentions_call(x, r"Option::is_some$"), False), g_is(lambda x: mentions_call(x, r"::next$") and (mentions_name(x, "seq") or mentions_call(x, r"CountSequence::iter$")), "None")))], "compare_items:Ok", "Ok(()) of compare_items")
     errs = {}
     for b, si, st, e in ret_sites(bd, sym):
         if e[0] == "agg" and e[2] == "Err":
@@ -332,6 +344,34 @@ def r7(ctx):
         raise AnchorError("expected >= 25 consuming task returns, found %d" % n)
 
 
+WAITERS = ["run_single_non_read_task", "execute_read_task", "run_link_status_task"]
+
+
+def r8(ctx):
+    """A response wait that times out: the deadline handed to sleep_until is computed (clock read) before the wait loop,
+    not inside it; otherwise every loop iteration (an unsolicited response, a stale reply, a channel message) re-arms the
+    full timeout and a lost reply is never reported."""
+    prog = ctx.prog
+    n = 0
+    for w in WAITERS:
+        bd = prog.abody("master::task::MasterSession::" + w)
+        sl = call_sites(bd, r"tokio::time::(sleep::)?sleep_until$")
+        if not sl:
+            raise AnchorError("%s: no sleep_until site" % w)
+        for c in sl:
+            lp = innermost_loop(bd, c.idx)
+            if lp is None:
+                raise AnchorError("%s: the timeout wait is not in a loop" % w)
+            clock = slice_call_blocks(bd, c.term.args[0], r"Timeout::deadline_from_now$|Instant::now$")
+            if not clock:
+                raise AnchorError("%s: the deadline does not derive from a clock read" % w)
+            inside = [b for b in clock if b in lp[1]]
+            n += 1
+            ctx.check(not inside, "deadline-before-wait-loop@%s" % w, "the deadline of the wait in %s is fixed before its wait loop (header bb%d)" % (w, lp[0]), bd.where(c.idx), bad_detail="%s re-computes its response deadline inside the wait loop (clock read at %s): any loop iteration postpones the timeout, a lost reply need never be reported" % (w, ", ".join(bd.where(b) for b in inside)))
+    if n < 3:
+        raise AnchorError("expected 3 response waits, found %d" % n)
+
+
 RULES = [
     ("C16.R1", "T2", "command success and SELECT->OPERATE only behind a parsed, faithful echo", r1),
     ("C16.R2", "T2", "echo comparison: status SUCCESS, index+value equality, exact object and header counts", r2),
@@ -340,4 +380,5 @@ RULES = [
     ("C16.R5", "T3", "task runners give every exit an outcome", r5),
     ("C16.R6", "T3/T4", "queued tasks are failed on reset / rejection; dispatchers are exhaustive", r6),
     ("C16.R7", "T3", "every task handle/on_task_error completes or forwards its promise", r7),
+    ("C16.R8", "T2-loop", "response deadlines are fixed before the wait loop", r8),
 ]
